@@ -106,12 +106,12 @@ var c09Model = &vlib.Check{
 		tree := mdl.BuildTree(doc, mdl.TreeOpts{R: r})
 		lay := mdl.RandomLayout(r)
 		base := mdl.Render(tree, lay)
-		st, cuts, nested := mdl.Split(r, tree, 1+r.Intn(5), 1+r.Intn(4))
+		st, cuts, nested, ragged := mdl.SplitRagged(r, tree, 1+r.Intn(5), 1+r.Intn(4), true)
 		if cuts == 0 {
 			return nil
 		}
 		sp := mdl.Render(st, lay)
-		return &vlib.Case{Project: renderedProject(base), Project2: renderedProject(sp), Params: map[string]any{"cuts": cuts, "nested": nested, "files": len(sp.Files)}}
+		return &vlib.Case{Project: renderedProject(base), Project2: renderedProject(sp), Params: map[string]any{"cuts": cuts, "nested": nested, "ragged": ragged, "files": len(sp.Files)}}
 	},
 	Classify: func(c *vlib.Case) (bool, []string) {
 		cuts, _ := c.Params["cuts"].(int)
@@ -126,7 +126,10 @@ var c09Model = &vlib.Check{
 		if nested > 0 {
 			cls = append(cls, "nested-cut")
 		}
-		return cuts >= 2 && nested >= 1, cls
+		if asInt(c.Params["ragged"]) > 0 {
+			cls = append(cls, "ragged-cut") // a piece ends inside a sub-tree: the includer continues the context it left open
+		}
+		return (cuts >= 2 && nested >= 1) || asInt(c.Params["ragged"]) > 0, cls
 	},
 }
 
